@@ -527,3 +527,148 @@ Check (eq_refl : register_spec = fun ens path =>
 
 Print Assumptions C14_source_translation.
 Print Assumptions C14_source_translation_errors.
+
+(** ** the lock structure of the registry is the one re-translated from the Rust source on this run
+    (bin/rs2v, lock-structure mode: Gen/RegLocksGen.v, Proofs/RegLocksGenAgree.v).  Each method of
+    src/registry.rs is rendered as a plan of lock acquisitions ([TAcq LRd] = [self.read_state()], [TAcq LWr]
+    = [self.write_state()]), releases ([TRel]) and invocations of the user callable ([TCall]); [exec] runs
+    it while OTHER threads change the shared state wherever this thread holds no guard ([env n]: what they
+    do before this thread's [n]-th acquisition).  Every mutator is ONE write section whose effect and
+    answer are the model's [rstep] on the state found when the lock is granted; a read is ONE read
+    section; [dispatch_with_ctx] with a body is the model's pair: the decision [fget] under the read lock,
+    the guard released, then either the callable invoked with NO guard held and nothing locked after it, or
+    (no lock held while the pointer is parsed) ONE write section that is the model's [dispatch_decided] on
+    the state found THEN -- the two sections of [csection] ([C14_requests_linearizable] is about those).
+    Not translated (the model's function is the fixed meaning): the tree walks [resolve_ref] -> [resolve],
+    [set_pointer] -> [set_ptr], [ensure_object_parent] -> [reg_at .. None]; the pointer functions are tied
+    by [C14_source_translation] above. *)
+From RepeV Require Import Base.GenRegLocksPrelude Gen.RegLocksGen Proofs.RegLocksGenAgree.
+
+Theorem C14_source_translation_locks :
+  match gen_reg_set_root with Some f => forall env busy s v, exec env busy (f v) s = section_of LWr (SetRoot v) env s | None => True end /\
+  match gen_reg_register_value with Some f => forall env busy s p v, exec env busy (f p v) s = section_of LWr (RegValue p v) env s | None => True end /\
+  match gen_reg_merge_root with Some f => forall env busy s o, exec env busy (f o) s = section_of LWr (MergeRoot o) env s | None => True end /\
+  match gen_reg_merge_at with Some f => forall env busy s p o, exec env busy (f p o) s = section_of LWr (MergeAt p o) env s | None => True end /\
+  match gen_reg_register_function_arc with
+  | Some f => forall env busy s p fid, exec env busy (f p fid) s = section_of LWr (RegFun p fid) env s
+  | None => True
+  end /\
+  match gen_reg_read_value with Some f => forall env busy s p, exec env busy (f p) s = section_of LRd (ReadValue p) env s | None => True end /\
+  match gen_reg_dispatch_with_ctx with
+  | Some f => forall env busy s p,
+      exec env busy (f p None) s =
+      match Registry.canonical_key p with
+      | Registry.Err e => (s, [], Registry.RErr e)
+      | Registry.Ok _ => section_of LRd (Dispatch p None) env s
+      end
+  | None => True
+  end /\
+  match gen_reg_dispatch_with_ctx with
+  | Some f => forall env busy s p payload, exec env busy (f p (Some payload)) s = dispatch_pair p payload env s
+  | None => True
+  end.
+Proof. exact c14_source_translation_locks. Qed.
+
+(** [dispatch_pair] is the thread model's two sections, and its trace carries the model's call log *)
+Theorem C14_source_translation_locks_model :
+  (forall p payload rest key, Registry.canonical_key p = Registry.Ok key ->
+     (forall s1, csection s1 (mkT None (Dispatch p (Some payload) :: rest)) =
+                 (s1, mkT (Some (fget (r_funs s1) key)) (Dispatch p (Some payload) :: rest), None)) /\
+     (forall s2 d, csection s2 (mkT (Some d) (Dispatch p (Some payload) :: rest)) =
+                   let '(s3, r, lg) := dispatch_decided s2 p payload d in (s3, mkT None rest, Some (Dispatch p (Some payload), r, lg)))) /\
+  (forall p payload env s,
+     calls_of (snd (fst (dispatch_pair p payload env s))) =
+     match Registry.canonical_key p with
+     | Registry.Err _ => []
+     | Registry.Ok key => match fget (r_funs (env 0%nat s)) key with Some fid => [(fid, payload)] | None => [] end
+     end) /\
+  (forall fid arg, of_cres (model_user fid arg) = fun_out fid arg).
+Proof. exact (conj dispatch_pair_csection (conj dispatch_pair_calls of_cres_model)). Qed.
+
+Check C14_source_translation_locks :
+  match gen_reg_set_root with Some f => forall env busy s v, exec env busy (f v) s = section_of LWr (SetRoot v) env s | None => True end /\
+  match gen_reg_register_value with Some f => forall env busy s p v, exec env busy (f p v) s = section_of LWr (RegValue p v) env s | None => True end /\
+  match gen_reg_merge_root with Some f => forall env busy s o, exec env busy (f o) s = section_of LWr (MergeRoot o) env s | None => True end /\
+  match gen_reg_merge_at with Some f => forall env busy s p o, exec env busy (f p o) s = section_of LWr (MergeAt p o) env s | None => True end /\
+  match gen_reg_register_function_arc with
+  | Some f => forall env busy s p fid, exec env busy (f p fid) s = section_of LWr (RegFun p fid) env s
+  | None => True
+  end /\
+  match gen_reg_read_value with Some f => forall env busy s p, exec env busy (f p) s = section_of LRd (ReadValue p) env s | None => True end /\
+  match gen_reg_dispatch_with_ctx with
+  | Some f => forall env busy s p,
+      exec env busy (f p None) s =
+      match Registry.canonical_key p with
+      | Registry.Err e => (s, [], Registry.RErr e)
+      | Registry.Ok _ => section_of LRd (Dispatch p None) env s
+      end
+  | None => True
+  end /\
+  match gen_reg_dispatch_with_ctx with
+  | Some f => forall env busy s p payload, exec env busy (f p (Some payload)) s = dispatch_pair p payload env s
+  | None => True
+  end.
+Check C14_source_translation_locks_model :
+  (forall p payload rest key, Registry.canonical_key p = Registry.Ok key ->
+     (forall s1, csection s1 (mkT None (Dispatch p (Some payload) :: rest)) =
+                 (s1, mkT (Some (fget (r_funs s1) key)) (Dispatch p (Some payload) :: rest), None)) /\
+     (forall s2 d, csection s2 (mkT (Some d) (Dispatch p (Some payload) :: rest)) =
+                   let '(s3, r, lg) := dispatch_decided s2 p payload d in (s3, mkT None rest, Some (Dispatch p (Some payload), r, lg)))) /\
+  (forall p payload env s,
+     calls_of (snd (fst (dispatch_pair p payload env s))) =
+     match Registry.canonical_key p with
+     | Registry.Err _ => []
+     | Registry.Ok key => match fget (r_funs (env 0%nat s)) key with Some fid => [(fid, payload)] | None => [] end
+     end) /\
+  (forall fid arg, of_cres (model_user fid arg) = fun_out fid arg).
+
+(** the definitions used above are the plain ones *)
+Check (eq_refl : exec = fun env busy p s => run model_user env busy 0 false p s).
+Check (eq_refl : section_of = fun m op env s =>
+  let s1 := env 0%nat s in
+  let '(s2, r, _) := rstep None s1 op in (s2, [TAcq m; TRel], r)).
+Check (eq_refl : dispatch_pair = fun p payload env s =>
+  match Registry.canonical_key p with
+  | Registry.Err e => (s, [], Registry.RErr e)
+  | Registry.Ok key =>
+      let s1 := env 0%nat s in
+      let d := fget (r_funs s1) key in
+      match d with
+      | Some fid =>
+          let '(s3, r, _) := dispatch_decided s1 p payload d in (s3, [TAcq LRd; TRel; TCall fid payload], r)
+      | None =>
+          match Registry.parse_pointer p with
+          | Registry.Err e => (s1, [TAcq LRd; TRel], Registry.RErr e)
+          | Registry.Ok _ =>
+              let s2 := env 1%nat s1 in
+              let '(s3, r, _) := dispatch_decided s2 p payload d in (s3, [TAcq LRd; TRel; TAcq LWr; TRel], r)
+          end
+      end
+  end).
+Check (eq_refl : run = fix run (user : N -> json -> cres) (env : nat -> rstate -> rstate) (busy : nat -> bool)
+             (n : nat) (held : bool) (p : lplan) (s : rstate) {struct p} : rstate * list tev * rout :=
+  match p with
+  | LDone r => (s, [], r)
+  | LPanic => (s, [TPanic], RNoRoute)
+  | LAcq m k =>
+      if held then (s, [TDeadlock], RNoRoute)
+      else let s1 := env n s in
+           let '(s', tr, r) := run user env busy (S n) true (k s1) s1 in (s', TAcq m :: tr, r)
+  | LTry m k b =>
+      if held || busy n then
+        let '(s', tr, r) := run user env busy (S n) held b s in (s', TBusy :: tr, r)
+      else let s1 := env n s in
+           let '(s', tr, r) := run user env busy (S n) true (k s1) s1 in (s', TAcq m :: tr, r)
+  | LRel w k =>
+      let '(s', tr, r) := run user env busy n false k (match w with Some s1 => s1 | None => s end) in
+      (s', TRel :: tr, r)
+  | LCall fid arg k =>
+      let '(s', tr, r) := run user env busy n held (k (user fid arg)) s in (s', TCall fid arg :: tr, r)
+  | LAtomic k =>
+      let '(s', tr, r) := run user env busy n held k s in (s', TAtomic :: tr, r)
+  end).
+Check (eq_refl : model_user = fun fid arg => if (fid mod 4 =? 3)%N then CRErr APP_ERROR else CROk (JArr [JNum fid; arg])).
+Check (eq_refl : of_cres = fun r => match r with CROk j => Registry.ROk j | CRErr c => Registry.RErr (EExec c) end).
+
+Print Assumptions C14_source_translation_locks.
+Print Assumptions C14_source_translation_locks_model.
